@@ -426,6 +426,7 @@ def run_update(mutate=None, screening=False, dynamic=False, prefixes=("C",)):
             kwargs["applied_vector_potential"] = A_prev
         len0 = s.d_psi_sq_vals.length
         tent0 = s.tentative_dt
+        pc0 = len(c.pc)
         try:
             res = s.update(state, rs, dt_prev, **kwargs)
         except RuntimeError:
@@ -493,6 +494,11 @@ def run_update(mutate=None, screening=False, dynamic=False, prefixes=("C",)):
         for v in (dt_out, new_t):
             used |= sym._consts(SR.lift(v).e)
         check("C11.update_ignores_observers", z3.BoolVal(not (used & obs_names)))
+        # no implicit flow either: no branch taken inside update() tests an observer setting
+        ctl = set()
+        for cond in c.pc[pc0:]:
+            ctl |= sym._consts(cond)
+        check("C11.update_ignores_observers.no_branch_on_observers", z3.BoolVal(not (ctl & obs_names)))
         writes = [w for w in c.ghost.get("writes", []) if any(w[0] is x for x in (psi_in, mu_in, js_in, jn_in, A_ind_in, A_prev, s.epsilon))]
         check("C11.no_aliasing.inputs_not_mutated", z3.BoolVal(not writes))
         outs = [x for x in res[1:6]]
